@@ -26,8 +26,9 @@ def load_known():
                 import re as _re
                 mp = _re.search(r'property=(\S+)', body)
                 mk = _re.search(r'key="([^"]*)"', body)
+                mt = _re.search(r'tag="([^"]*)"', body)
                 known.append({'property': mp.group(1) if mp else None, 'key': mk.group(1) if mk else None,
-                              'desc': desc.strip()})
+                              'tag': mt.group(1) if mt else None, 'desc': desc.strip()})
             elif line.startswith('fixed:'):
                 fixed.append(line)
     return known, fixed
@@ -134,7 +135,9 @@ def main():
     for r in recs:
         if r['status'] in ('crash', 'monitor-fail'):
             key = r.get('crash') or r.get('why')
-            k = next((k for k in known if k['key'] and key and k['key'] in key), None)
+            # a listed finding matches only its own case family (tag) *and* failure (key)
+            k = next((k for k in known if k['key'] and key and k['key'] in key
+                      and (k['tag'] is None or k['tag'] == str(r.get('tag')).split(':')[0])), None)
             if k:
                 known_hits.append((k, r)); continue
             violations.append(({'property': prop, 'kind': r['status'], 'what': key, 'case': case_json(cases[r['idx']]),
@@ -165,7 +168,7 @@ def main():
     for k, r in known_hits[:50]:
         pass
     for k in {id(k): k for k, _ in known_hits}.values():
-        print(f"KNOWN-FINDING: property={prop} {k['key']} :: {k['desc']}")
+        print(f"KNOWN-FINDING: property={prop} {('tag=' + k['tag'] + ' ') if k['tag'] else ''}{k['key']} :: {k['desc']}")
     # one VIOLATION line per distinct 'what' (the first with a concrete input first)
     seen = set()
     vio_count = 0
@@ -208,7 +211,7 @@ def main():
     if obligations == 0:
         ev['coverage']['obligations'] = 1; ev['coverage']['discharged'] = 0
     os.makedirs(os.path.join(VERIF, 'evidence'), exist_ok=True)
-    if not args.skip_lean:      # a development run without the Lean stage is not evidence
+    if not args.skip_lean and not os.environ.get('UH_NO_EVIDENCE'):      # development / seeded-change runs are not evidence
         with open(os.path.join(VERIF, 'evidence', prop + '.json'), 'w', encoding='utf-8') as f:
             json.dump(ev, f, ensure_ascii=False, indent=1, default=str)
     print(f"{prop} {tier}: {len(recs)} cases {dict(stats)}; theorems {discharged}/{obligations}; "
